@@ -564,8 +564,7 @@ def _run_chunk(args):
     for T, v in pairs:
         for nm in names:
             try:
-                with guard.time_limit(guard.CASE_SECONDS):
-                    f, n = CHECKS[nm](T, v, M)
+                f, n = guard.run_case(lambda: CHECKS[nm](T, v, M))
             except guard.CaseTimeout:
                 f, n = [fail(nm, T, v, 'does not terminate within %d s on this case' % guard.CASE_SECONDS)], 1
             except Exception as ex:
